@@ -27,6 +27,8 @@ type itModel struct {
 	cur  int
 	done bool
 	it   *ad.AvlIterator
+	// snapshot iterators (SafeIterator, SafeIteratorFrom) walk the set as it was when they were created
+	frozen map[int]bool
 }
 
 type world struct {
@@ -179,13 +181,41 @@ func (w *world) apply(o op, cs *fw.Case) []string {
 		}
 		w.its = append(w.its, im)
 		fails = append(fails, w.checkIt(im, "iterator-start")...)
+	case "safeIter", "safeIterFrom":
+		var it *ad.AvlIterator
+		if p := fw.Call(func() {
+			if o.Kind == "safeIter" {
+				it = t.SafeIterator()
+			} else {
+				it = t.SafeIteratorFrom(o.Key)
+			}
+		}); p != nil {
+			fail("panic", p.Msg)
+			return fails
+		}
+		fm := map[int]bool{}
+		for k := range m {
+			fm[k] = true
+		}
+		im := &itModel{tree: o.T, it: it, frozen: fm}
+		from := -1 << 30
+		if o.Kind == "safeIterFrom" {
+			from = o.Key
+		}
+		if c, ok := ceil(fm, from); ok {
+			im.cur = c
+		} else {
+			im.done = true
+		}
+		w.its = append(w.its, im)
+		fails = append(fails, w.checkIt(im, "iterator-start")...)
 	case "iclone":
 		if o.I >= len(w.its) {
 			return nil
 		}
 		src := w.its[o.I]
 		c := src.it.Clone()
-		im := &itModel{tree: src.tree, it: &c, cur: src.cur, done: src.done}
+		im := &itModel{tree: src.tree, it: &c, cur: src.cur, done: src.done, frozen: src.frozen}
 		w.its = append(w.its, im)
 		fails = append(fails, w.checkIt(im, "iterator-clone")...)
 	case "next":
@@ -194,6 +224,10 @@ func (w *world) apply(o op, cs *fw.Case) []string {
 		}
 		im := w.its[o.I]
 		mm := w.models[im.tree]
+		if im.frozen != nil {
+			mm = im.frozen
+			cs.Cover("next-on-snapshot-iterator")
+		}
 		if p := fw.Call(func() { im.it.Next() }); p != nil {
 			fail("panic", p.Msg)
 			return fails
@@ -452,6 +486,63 @@ func Run(c *fw.Ctx) {
 					key = k - 1
 				}
 				ops = append(ops, op{Kind: "del", Key: key})
+			default:
+				ops = append(ops, op{Kind: "ins", Key: r.Intn(k)})
+			}
+		}
+		runHistory(cs, uni, ops)
+	})
+	// (3b) snapshot iterators: SafeIterator / SafeIteratorFrom iterate a private copy, so whatever happens to
+	// the tree afterwards (deletes around and ahead of the position, inserts of larger and smaller keys,
+	// clones) the iterator must walk the set as it was when it was created; plain iterators on the same
+	// tree run alongside.
+	c.Cases("snapshot-iterators", c.N(2000, 100000), func(cs *fw.Case) {
+		r := cs.R
+		k := r.Range(2, 40)
+		uni := make([]int, k)
+		for i := range uni {
+			uni[i] = i
+		}
+		var ops []op
+		for _, i := range r.Perm(k) {
+			if r.Chance(0.7) {
+				ops = append(ops, op{Kind: "ins", Key: uni[i]})
+			}
+		}
+		nits := r.Range(1, 4)
+		for i := 0; i < nits; i++ {
+			switch r.Intn(4) {
+			case 0:
+				ops = append(ops, op{Kind: "safeIter"})
+			case 1, 2:
+				ops = append(ops, op{Kind: "safeIterFrom", Key: r.Range(-1, k)})
+			default:
+				ops = append(ops, op{Kind: "iterFrom", Key: r.Intn(k)})
+			}
+			// mutate between the creations as well
+			if r.Bool() {
+				ops = append(ops, op{Kind: "del", Key: r.Intn(k)})
+			}
+		}
+		pos := 0
+		for i := 0; i < 3*k; i++ {
+			u := r.Float64()
+			switch {
+			case u < 0.35:
+				ops = append(ops, op{Kind: "next", I: r.Intn(nits)})
+				pos++
+			case u < 0.65:
+				key := pos + r.Range(-2, 4)
+				if key < 0 {
+					key = 0
+				}
+				if key >= k {
+					key = k - 1
+				}
+				ops = append(ops, op{Kind: "del", Key: key})
+			case u < 0.7 && nits < 6:
+				ops = append(ops, op{Kind: "iclone", I: r.Intn(nits)})
+				nits++
 			default:
 				ops = append(ops, op{Kind: "ins", Key: r.Intn(k)})
 			}
